@@ -590,6 +590,40 @@ func litABFamily(full bool) []Pat {
 	return finalize("LITAB", trees, map[string]bool{}, false)
 }
 
+// ---- LOOPALT: counted group loops (greedy and lazy, minimum >= 2 included) whose body is an alternation of
+// literals of different lengths: an iteration can be re-matched through another branch after a later one failed,
+// which is where the iteration counters have to be restored exactly ----
+
+func loopAltFamily() []Pat {
+	lits := []string{"a", "b", "ab", "ba", "aa", "abb"}
+	counts := []quant{{2, 3, true}, {2, -1, true}, {2, 3, false}, {1, 2, true}, {3, 4, true}, {2, 2, false}, {0, 2, true}, {2, -1, false}}
+	sufs := []*Node{lit('c'), lit('a'), lit('b'), nil}
+	var trees []*Node
+	for i, x := range lits {
+		for j, y := range lits {
+			if i == j {
+				continue
+			}
+			body := alt(litStr(x), litStr(y))
+			for w := 0; w < 2; w++ {
+				var g *Node
+				if w == 0 {
+					g = &Node{K: KGroup, Kids: []*Node{body}}
+				} else {
+					g = capg(body)
+				}
+				for _, c := range counts {
+					for _, sf := range sufs {
+						trees = append(trees, cat(rep(g, c.min, c.max, c.lazy), sf))
+						trees = append(trees, cat(lit('c'), rep(g, c.min, c.max, c.lazy), sf))
+					}
+				}
+			}
+		}
+	}
+	return finalize("LOOPALT", trees, map[string]bool{}, false)
+}
+
 // ---- LOOK ----
 
 func lookFamily(c01only bool) []Pat {
